@@ -3,4 +3,5 @@ EXTENDS Hlog
 C2 == <<<<"url", "method">>, <<"useragent", "remoteaddr", "custom">>>>
 C3 == <<<<"url", "method", "host">>, <<"request", "remoteip">>, <<"referer", "proto", "url">>>>
 C3b == <<<<"url">>, <<"url", "method", "useragent", "custom">>, <<>>>>
+C3c == <<<<"requestid", "url">>, <<"etag", "requestid", "respheader">>, <<"httpversion", "etag">>>>
 =============================================================================
